@@ -194,13 +194,13 @@ theorem foldl_voteStep_cum (height : Int) (rl : KMap Delegatee) (votes : List Vo
 /-- stages A–D of `beginBlock` leave the rewards ledger, the active parameters and the committed
     delegatee history alone -/
 theorem pre_votes_frame (s : St) (h : Header) (m : Int) :
-    let sD := (bbStake (bbC (bbGov (bbA s h) h.evidence).1 m) h.evidence).1
+    let sD := (bStake (bbC (bGov (bbA s h) h.evidence).1 m) h.evidence).1
     sD.rewards = s.rewards ∧ sD.active = s.active ∧ sD.delegs.hist = s.delegs.hist := by
   intro sD
   have a := bbA_fr s h
-  have b := bbGov_fr (bbA s h) h.evidence
-  have c := bbC_fr (bbGov (bbA s h) h.evidence).1 m
-  have d := bbStake_fr (bbC (bbGov (bbA s h) h.evidence).1 m) h.evidence
+  have b := bGov_fr (bbA s h) h.evidence
+  have c := bbC_fr (bGov (bbA s h) h.evidence).1 m
+  have d := bStake_fr (bbC (bGov (bbA s h) h.evidence).1 m) h.evidence
   refine ⟨?_, ?_, ?_⟩
   · show sD.rewards = s.rewards
     rw [d.2.1, c.2.1.1, b.2.1, a.2.1]
@@ -229,7 +229,7 @@ theorem issuance_core {s : St} {h : Header} {n : Nat} (hi : (beginBlock s h).2.i
   refine ⟨by simpa using hsum, ?_⟩
   intro k hb
   rw [hres]
-  have hc0 : cumOf (bbStake (bbC (bbGov (bbA s h) h.evidence).1 m) h.evidence).1 k = cumOf s k := by
+  have hc0 : cumOf (bStake (bbC (bGov (bbA s h) h.evidence).1 m) h.evidence).1 k = cumOf s k := by
     unfold cumOf; rw [hr]
   have := hcum k (by rw [hc0]; exact hb)
   rw [hc0] at this; exact this
